@@ -219,13 +219,23 @@ type c31Server struct {
 	lenient bool // probe only: Merkle query ignores the height argument
 	queries int
 	grown   int
+	failed  int
 	tips    []uint // tip seen by each query (state trace)
 	names   []string
 }
 
 // step is called at the start of every query: the environment may mine blocks first.
-func (s *c31Server) step(name string) {
-	g := s.c.Deviate(s.maxGrow+1, fmt.Sprintf("mine@q%d", s.queries))
+func (s *c31Server) step(name string) error {
+	g := s.c.Deviate(s.maxGrow+2, fmt.Sprintf("mine@q%d", s.queries))
+	if g == s.maxGrow+1 {
+		// the last alternative: no block is mined but this one request fails (a transient
+		// server / connection error); the next request works again
+		s.queries++
+		s.tips = append(s.tips, s.tip)
+		s.names = append(s.names, name+":failed")
+		s.failed++
+		return fmt.Errorf("transient failure of the %s request", name)
+	}
 	if int(s.tip)+g > c31Base+c31Blocks-1 {
 		panic("c31: harness chain too short")
 	}
@@ -234,6 +244,7 @@ func (s *c31Server) step(name string) {
 	s.queries++
 	s.tips = append(s.tips, s.tip)
 	s.names = append(s.names, name)
+	return nil
 }
 
 func (s *c31Server) block(height uint) *c31Block {
@@ -261,7 +272,9 @@ func (s *c31Server) find(h Hash) (*c31Block, int) {
 }
 
 func (s *c31Server) GetTransactionConfirmations(h Hash) (uint, error) {
-	s.step("confirmations")
+	if err := s.step("confirmations"); err != nil {
+		return 0, err
+	}
 	b, _ := s.find(h)
 	if b == nil {
 		return 0, fmt.Errorf("transaction not found")
@@ -270,7 +283,9 @@ func (s *c31Server) GetTransactionConfirmations(h Hash) (uint, error) {
 }
 
 func (s *c31Server) GetTransaction(h Hash) (*Transaction, error) {
-	s.step("transaction")
+	if err := s.step("transaction"); err != nil {
+		return nil, err
+	}
 	b, k := s.find(h)
 	if b == nil {
 		return nil, fmt.Errorf("transaction not found")
@@ -279,12 +294,16 @@ func (s *c31Server) GetTransaction(h Hash) (*Transaction, error) {
 }
 
 func (s *c31Server) GetLatestBlockHeight() (uint, error) {
-	s.step("height")
+	if err := s.step("height"); err != nil {
+		return 0, err
+	}
 	return s.tip, nil
 }
 
 func (s *c31Server) GetBlockHeader(height uint) (*BlockHeader, error) {
-	s.step("header")
+	if err := s.step("header"); err != nil {
+		return nil, err
+	}
 	b := s.block(height)
 	if b == nil {
 		return nil, fmt.Errorf("header at height %d not found", height)
@@ -294,7 +313,9 @@ func (s *c31Server) GetBlockHeader(height uint) (*BlockHeader, error) {
 }
 
 func (s *c31Server) GetTransactionMerkleProof(h Hash, height uint) (*TransactionMerkleProof, error) {
-	s.step("merkle")
+	if err := s.step("merkle"); err != nil {
+		return nil, err
+	}
 	b := s.block(height)
 	pos := -1
 	if b != nil {
@@ -325,7 +346,9 @@ func (s *c31Server) GetTransactionMerkleProof(h Hash, height uint) (*Transaction
 }
 
 func (s *c31Server) GetCoinbaseTxHash(height uint) (Hash, error) {
-	s.step("coinbase-hash")
+	if err := s.step("coinbase-hash"); err != nil {
+		return Hash{}, err
+	}
 	b := s.block(height)
 	if b == nil {
 		return Hash{}, fmt.Errorf("no block at height %d", height)
